@@ -143,3 +143,4 @@ from tasks_bif import *  # noqa
 from tasks_inv import *  # noqa
 from tasks_sim import *  # noqa
 from tasks_parse import *  # noqa
+from tasks_dist import *  # noqa
